@@ -12,8 +12,12 @@ const std::vector<std::string> kAccOptions = {
   "acc:or", "acc:pl", "acc:pow", "acc:quadeq", "acc:quadfunccon", "acc:quadge", "acc:quadle", "acc:quadrange",
   "acc:sin", "acc:sinh", "acc:sos1", "acc:sos2", "acc:tan", "acc:tanh"};
 
-sim::Json model_scenario(const gen::Model& m, bool ampl_flag) {
-  sim::Json sc = base_scenario(gen::emit_nl_text(m), ampl_flag);
+sim::Json model_scenario(const gen::Model& m, bool ampl_flag, bool binary) {
+  sim::Json sc = base_scenario(gen::emit_nl(m, binary), ampl_flag);
+  sc.set("nl_binary", binary);
+  bool has_sos = false;
+  for (auto& sf : m.suffixes) if (sf.name == "sosno" || sf.name == "sos") has_sos = true;
+  sc.set("model_has_sos", has_sos);
   sim::Json ex = sim::Json::object();
   ex.set("nvars", m.nvars());
   ex.set("ncons", (long)m.cons.size());
